@@ -133,6 +133,83 @@ def fixture_cases(ctx, rnd):
     return out
 
 
+MC_CFG = '''SPECIFICATION Spec
+CONSTANTS N = %d
+Rule = "%s"
+CONSTRAINT %s
+CHECK_DEADLOCK FALSE
+'''
+CARRIERS = ('x = a %s b', 'x = %s', 'x = %s b', 'x = a %s', 't[%s] = 1', 'f(%s)', 'x = {%s}', 'return %s', '%s = 1', '%s()', 'x = a[%s]',
+            'if a %s b then end', 'x = a(%s)', '%s', 'x = a %s (b)', 'x = (a) %s b', 'x = a %s 1', 'x = 1 %s a', 'goto %s', 'local %s', 'x = # %s')
+
+
+def layer_i(ctx):
+    """Layer I: MCMinify.tla = the writer's separator automaton over token spelling classes.
+    (a) every emission of the model for all sequences of length <= 2 is replayed into the real
+        writer on the same token stream (code ~ model: MODEL-DRIFT only);
+    (b) TLC reports the sequences on which the model's output does not re-lex to the input
+        (model violates Layer P); each is embedded in carrier programs; a carrier that the real
+        parser accepts completely AND whose tree TraceSyn accepts is a valid program, and is
+        then judged like any other program.
+    The pinned-tree rule (no fuse check) must yield strictly more glue sequences."""
+    from .. import ast2deriv
+    from pico8.lua import lua
+    r = ctx.tlc('MCMinify', MC_CFG % (2, 'code', 'EmitAll'), name='MCMinify_emit')
+    drift = 0
+    for rec in r.jsons:
+        toks = []
+        ok = True
+        for t in rec['toks']:
+            lt, err = lexref.lex_impl([bytes(t['w'])])
+            if lt is None or len(lt) != 1:
+                ok = False
+                break
+            toks.append(lt[0])
+        if not ok:
+            continue
+        try:
+            w = lua.LuaMinifyTokenWriter(tokens=toks, root=None, args={'keep_all_names': True})
+            got = b''.join(w.to_lines())
+        except Exception as e:  # noqa
+            got = b'<%s>' % type(e).__name__.encode()
+        if got != bytes(rec['out']):
+            drift += 1
+            ctx.drift('token writer differs from MCMinify.tla on %s: model %r, code %r' % ([bytes(t['w']) for t in rec['toks']], bytes(rec['out']), got))
+    ctx.notes['layer_i_emissions_replayed'] = len(r.jsons)
+    ctx.traces += len(r.jsons) - drift
+    n = 2 if ctx.quick else 3
+    g = ctx.tlc('MCMinify', MC_CFG % (n, 'code', 'Report'), name='MCMinify_glue')
+    gp = ctx.tlc('MCMinify', MC_CFG % (2, 'pinned', 'Report'), name='MCMinify_glue_pinned_rule')
+    ctx.mc_results.append({'name': 'MCMinify', 'states': g.distinct, 'result': '%d token sequences (length <= %d) on which the model of the current separator rule glues; %d with the rule of the pinned tree (length 2)' % (len(g.jsons), n, len(gp.jsons))})
+    if len(gp.jsons) <= len([x for x in g.jsons if len(x['glue']) == 2]):
+        raise core.MachineryError('MCMinify: the pinned-tree rule does not glue more than the current rule')
+    cases = []
+    seen = set()
+    for rec in g.jsons:
+        body = b' '.join(bytes(t['w']) for t in rec['glue'])
+        for c in CARRIERS:
+            src = (c.encode() % body) + b'\n'
+            if src in seen:
+                continue
+            seen.add(src)
+            try:
+                tr = ast2deriv.trace(src)
+            except Exception:
+                continue
+            if tr['consumed'] != len(tr['toks']):
+                continue
+            cases.append((src, tr))
+    if cases:
+        v = ctx.validate('TraceSyn', [{'toks': tr['toks'], 'deriv': tr['deriv'], 'consumed': tr['consumed']} for _, tr in cases])
+        valid = [('glue-carrier:%d' % k, src, []) for k, ((src, tr), vv) in enumerate(zip(cases, v)) if vv[0] == 'ok']
+    else:
+        valid = []
+    ctx.notes['layer_i_glue_sequences'] = len(g.jsons)
+    ctx.notes['layer_i_valid_carriers_judged'] = len(valid)
+    if valid:
+        judge(ctx, valid, ('default',), minify.KeepFiles(ctx))
+
+
 def run(ctx):
     rnd = random.Random(ctx.seed)
     ctx.rule = ('GenProg programs (all derivations <= N tokens, expression-heavy, short-if-heavy, simulated deep) rendered with one space or one newline '
@@ -147,6 +224,7 @@ def run(ctx):
     sub = cases[::7]
     judge(ctx, sub, ('keepall', 'keepfile'), keepfiles)
     judge(ctx, fixture_cases(ctx, rnd), cfgs, keepfiles)
+    layer_i(ctx)
     canaries(ctx)
     ctx.evaluations += len(cases) + 2 * len(sub)
     pairs = adjacency_coverage(cases)
